@@ -324,10 +324,15 @@ func selftest(id string) int {
 			continue
 		}
 		var meta struct {
-			Property string   `json:"property"`
-			Caught   []string `json:"caught_by"`
+			Property string `json:"property"`
+			// CheckProperty names the check that decides this change when it is not the
+			// property the seeding agent filed it under
+			CheckProperty string `json:"check_property"`
 		}
 		json.Unmarshal(mb, &meta)
+		if meta.CheckProperty != "" {
+			meta.Property = meta.CheckProperty
+		}
 		if meta.Property == id {
 			ms = append(ms, s)
 		}
